@@ -242,6 +242,8 @@ class Real:
         self.real_tc = False
         self.helpers = []           # peer-side communities used to craft inbound packets
         self.outside = []           # what was emitted while no TunnelEndpoint.send was in progress (bypass detection)
+        self.service = None         # an ipv8_service.IPv8 instance that built the endpoint stack itself
+        self.plis_src = None        # where prefix listeners are registered when no TunnelEndpoint was built
         # bookkeeping (never read back from the endpoint)
         self.anon = {}
         self.att = False
@@ -401,6 +403,20 @@ class Real:
         cs = list(self.tc.circuits.values())
         return cs[idx] if 0 <= idx < len(cs) else None
 
+    def adopt(self, ov, want):
+        """a loaded overlay: remember what its settings asked for, record what reaches its on_packet"""
+        lid = 1000 + len(self.overlays)
+        self.overlays.append((ov, want))
+        if want:
+            self.anon[ov.get_prefix()] = True
+        ov._c07_lid = lid
+        real_on_packet = ov.on_packet
+
+        def on_packet(packet, *a, _lid=lid, _real=real_on_packet, **kw):
+            self.log.append(("deliver", _lid))
+            return _real(packet, *a, **kw)
+        ov.on_packet = on_packet
+
     def expected_receivers(self, from_tunnel, packet):
         """who must be offered a packet of that origin: the global listeners and the loaded overlays with the packet's
         prefix whose `anonymize` (as asked for in their settings / given to the listener) equals from_tunnel, once each"""
@@ -534,22 +550,48 @@ class Real:
                                                     anonymize=want)))
             reply = self.quiet("Community.__init__", construct)
             if made:
-                ov, lid = made[0], 1000 + len(self.overlays)
-                self.overlays.append((ov, want))
-                if want:
-                    self.anon[ov.get_prefix()] = True
-                ov._c07_lid = lid
-                real_on_packet = ov.on_packet
-
-                def on_packet(packet, *a, _lid=lid, _real=real_on_packet, **kw):
-                    self.log.append(("deliver", _lid))
-                    return _real(packet, *a, **kw)
-                ov.on_packet = on_packet
+                self.adopt(made[0], want)
             return reply
+        if kind == "service":
+            # ipv8_service.IPv8.__init__ builds the endpoint stack and loads the configured overlays
+            import base64
+
+            from ipv8_service import IPv8
+            stats, ovs = op[1], op[2]
+            classes = {f"SvcOverlay{i}": type(f"SvcOverlay{i}", (k.Community,), {"community_id": cid})
+                       for i, (cid, _) in enumerate(ovs)}
+            config = {"keys": [{"alias": "k", "generation": "curve25519", "file": None,
+                                "bin": base64.b64encode(k.keys[0].key_to_bin()).decode()}],
+                      "logger": {"level": "CRITICAL"}, "walker_interval": 0.5, "working_directory": ".",
+                      "overlays": [{"class": f"SvcOverlay{i}", "key": "k", "walkers": [], "bootstrappers": [],
+                                    "initialize": ({} if want is None else {"anonymize": want}), "on_start": []}
+                                   for i, (_, want) in enumerate(ovs)]}
+            made = []
+            reply = self.quiet("IPv8.__init__", lambda: made.append(
+                IPv8(config, endpoint_override=self.inner, enable_statistics=stats, extra_communities=classes)))
+            names = []
+            if made:
+                self.service = made[0]
+                e = made[0].endpoint
+                while e is not self.inner and hasattr(e, "endpoint"):
+                    names.append(type(e).__name__)
+                    if isinstance(e, k.TunnelEndpoint):
+                        self.ep = e                       # the TunnelEndpoint the service built is the one under test
+                        q = getattr(e, "send_queue", None)
+                        self.bound = q.maxlen if isinstance(q, deque) else None
+                    e = e.endpoint
+                if "TunnelEndpoint" not in names:
+                    self.plis_src = made[0].endpoint
+                for ov, (_, want) in zip(made[0].overlays, ovs):
+                    self.adopt(ov, bool(want))
+            return reply.replace("-", "wrappers=[" + ",".join(reversed(names)) + "]", 1) if made else reply
         raise ValueError(kind)
 
     def close(self):
         loop = self.k.loop
+        if self.service is not None:
+            loop.run_until_complete(self.service.stop())
+            self.service, self.overlays = None, []
         for ov, _ in self.overlays:
             if ov is not None:
                 loop.run_until_complete(ov.unload())
@@ -627,7 +669,8 @@ class Real:
         lis = [f"{l.lid}:" + ("none" if not hasattr(l, "anonymize") else ("1" if l.anonymize else "0"))
                for l in self.inner._listeners if hasattr(l, "lid")]
         plis = sorted({f"{l._c07_lid}:{hx(pfx)}:" + ("none" if not hasattr(l, "anonymize") else ("1" if l.anonymize else "0"))
-                       for pfx, lst in self.inner._prefix_map.items() for l in lst if hasattr(l, "_c07_lid")})
+                       for pfx, lst in (self.plis_src or self.ep.endpoint)._prefix_map.items() for l in lst
+                       if hasattr(l, "_c07_lid")})
         return (f"cap={ep.send_queue.maxlen} hops={ep.hops} att={'1' if ep.tunnel_community is not None else '0'} "
                 f"can={'1' if tc.can_create else '0'} fail={'none' if tc.fail_after is None else tc.fail_after} set=[{','.join(sets)}] q=[{','.join(q)}] "
                 f"circ=[{','.join(circ)}] lis=[{','.join(lis)}] plis=[{','.join(plis)}]")
@@ -666,12 +709,16 @@ def line_of(op) -> str:
         return "tcinit " + hx(bytes([0, 2]) + TC_ID)
     if kind == "tcdata":
         return f"notify 1 {hx(op[2])}"     # TunnelCommunity.on_data ends in notify_listeners(packet, from_tunnel=True)
+    if kind == "service":
+        return f"service {int(op[1])} [" + ",".join(f"{hx(c)}:{int(bool(w))}" for c, w in op[2]) + "]"
     if kind == "overlay":
         return f"overlay {hx(op[1])} {int(op[2])}"
     raise ValueError(kind)
 
 
 def op_to_json(op):
+    if op[0] == "service":
+        return ["service", op[1], [[c.hex(), w] for c, w in op[2]]]
     return [x.hex() if isinstance(x, bytes) else x for x in op]
 
 
@@ -687,6 +734,8 @@ def op_from_json(j):
         return ("overlay", bytes.fromhex(j[1]), bool(j[2]))
     if kind == "hop":
         return ("hop", j[1], j[2], None if j[3] is None else list(j[3]))
+    if kind == "service":
+        return ("service", bool(j[1]), [(bytes.fromhex(c), w) for c, w in j[2]])
     if kind == "notify":
         return ("notify", bool(j[1]), bytes.fromhex(j[2]))
     if kind == "tcdata":
@@ -1118,6 +1167,60 @@ def overlay_tier(ctx: Ctx, n_scen: int, use_model: bool):
         compare(ctx, lines, expect, histories)
 
 
+def service_tier(ctx: Ctx, n_scen: int, use_model: bool):
+    """configurations: ipv8_service.IPv8 builds the endpoint stack (statistics on/off) and loads the overlays with the
+    `initialize` blocks of the configuration; the overlays then send through whatever endpoint they were given"""
+    rng = ctx.rng
+    lines, expect, histories = [], [], []
+    combos = [(st, pat) for st in (False, True) for pat in ([True], [True, None], [None, True], [False, True, True],
+                                                           [None], [True, False], [None, None, True])]
+    for s in range(n_scen):
+        stats, pattern = combos[s % len(combos)] if s < 2 * len(combos) else (rng.random() < 0.5,
+                                                                            [rng.choice([True, True, False, None])
+                                                                             for _ in range(rng.randrange(1, 5))])
+        cids = []
+        for j, _ in enumerate(pattern):
+            cids.append(rng.choice(cids) if cids and rng.random() < 0.25 else
+                        bytes([0x60 + j]) + bytes(rng.randrange(256) for _ in range(19)))
+        real = Real()
+        record = []
+        lines.append("reset -")
+        expect.append("ok")
+        start = len(lines)
+        try:
+            run_history(ctx, real, [("service", stats, list(zip(cids, pattern)))], lines, expect, record)
+            ctx.count("service:statistics=%s, %d anonymized + %d plain overlay(s)" %
+                      (stats, sum(1 for w in pattern if w), sum(1 for w in pattern if not w)))
+            if any(pattern):        # (without any anonymized overlay no TunnelEndpoint is built and nothing is claimed)
+                if rng.random() < 0.5:
+                    run_history(ctx, real, [("settc", True, 1)], lines, expect, record)
+                for _ in range(rng.randrange(2, 12)):
+                    if real.fail is not None:
+                        break
+                    r = rng.random()
+                    if r < 0.7:
+                        i = rng.randrange(len(real.overlays))
+                        how = rng.choice(["walk_to", "puncture", "raw", "send_intro", "respond"])
+                        ctx.count("service-send:" + how + (":anonymized" if real.overlays[i][1] else ":plain"))
+                        do_emit(ctx, real, ("emit", i, how, rng.randrange(0, 6), rng.randrange(256)), lines, expect, record)
+                    elif r < 0.85:
+                        ov, asked = rng.choice(real.overlays)
+                        run_history(ctx, real, [("notify", rng.random() < 0.6, ov.get_prefix() + b"in")], lines, expect,
+                                    record)
+                    else:
+                        run_history(ctx, real, [("mkhop",)] if False else [("dump",)], lines, expect, record)
+            lines.append("dump")
+            expect.append(real.dump())
+        finally:
+            real.close()
+        histories.append((start, record))
+        ctx.case(("s", ctx.seed, s, len(record)), real.nontrivial)
+        if real.fail is not None:
+            report_fail(ctx, real, record, None, "service configuration")
+    if use_model:
+        compare(ctx, lines, expect, histories)
+
+
 # ---------------------------------------------------------------------------------------------------------------------
 # circuit lifecycle through the REAL TunnelCommunity (default settings, virtual clock)
 # ---------------------------------------------------------------------------------------------------------------------
@@ -1417,6 +1520,7 @@ def run(ctx: Ctx):
     random_tier(ctx, ctx.scale(1200, 15000), ctx.model_ok)
     overlay_tier(ctx, ctx.scale(150, 2000), ctx.model_ok)
     lifecycle_tier(ctx, ctx.scale(250, 4000), ctx.model_ok)
+    service_tier(ctx, ctx.scale(120, 1500), ctx.model_ok)
 
 
 def search(ctx: Ctx, reason: str):
@@ -1433,6 +1537,8 @@ def search(ctx: Ctx, reason: str):
         overlay_tier(ctx, 400, False)
     if not ctx.failures:
         lifecycle_tier(ctx, 600, False)
+    if not ctx.failures:
+        service_tier(ctx, 300, False)
 
 
 def replay(ctx: Ctx, rec: dict):
